@@ -469,6 +469,9 @@ VF_MAIN
         VF_REACH("recv_more");
         VF_ASSERT((uint32) ssl->inlen + g_off == L, "c18.api.recv_inlen_accounts_for_consumed");
         VF_ASSERT(suffix_intact(ssl, 0), "c18.api.recv_keeps_unconsumed_bytes_at_front");
+        /* the caller is only sent back to the socket when nothing decodable
+           is left: whatever arrived coalesced is processed in this call */
+        VF_ASSERT(ssl->inlen == 0 || g_last_rc == SSL_PARTIAL, "c18.api.no_undecoded_input_left_behind");
         if (g_last_rc == SSL_PARTIAL)
         {
             VF_REACH("partial");
